@@ -351,12 +351,10 @@ impl private::StoreCallbacks<Annotation> for AnnotationStore {
                 }
             }
             Selector::AnnotationSelector(a_handle, offset) => {
-                if self.config.annotation_annotation_map {
-                    if offset.is_some() {
-                        multitarget = true; //we also want to populate the textrelationmap, this is handled in the multitarget block
-                    } else {
-                        self.annotation_annotation_map.insert(*a_handle, handle);
-                    }
+                if offset.is_some() {
+                    multitarget = true; //we also want to populate the textrelationmap, this is handled in the multitarget block
+                } else if self.config.annotation_annotation_map {
+                    self.annotation_annotation_map.insert(*a_handle, handle);
                 }
             }
             Selector::TextSelector(res_handle, textselection_handle, _) => {
